@@ -250,3 +250,29 @@ Example ex_flush :
               (9%N, {| a_nonce := 1; a_balance := 9; a_code := 77; a_storage := [(2%N, 6%N); (3%N, 5%N)] |}) ] in
    (r, r)).
 Proof. vm_compute. reflexivity. Qed.
+
+(* ------------------------------------------------------------------ *)
+(** * the driver's [permute] with an index list that is a permutation of 0..n-1 is a permutation *)
+
+Lemma permute_seq {A} (l : list A) : forall pre,
+  flat_map (fun i => match nth_error (pre ++ l) i with Some x => [x] | None => [] end)
+           (seq (length pre) (length l)) = l.
+Proof.
+  induction l as [|x t IH]; intros pre; cbn [length seq flat_map]; [reflexivity|].
+  rewrite nth_error_app2 by lia. rewrite Nat.sub_diag. cbn [nth_error app]. f_equal.
+  specialize (IH (pre ++ [x])). rewrite <- app_assoc in IH. cbn [app] in IH.
+  rewrite app_length in IH. cbn [length] in IH. rewrite Nat.add_1_r in IH. exact IH.
+Qed.
+
+Lemma permute_is_permutation : forall (A : Type) (idx : list nat) (l : list A),
+    Permutation idx (seq 0 (length l)) -> Permutation l (permute idx l).
+Proof.
+  intros A idx l P. unfold permute.
+  rewrite (Permutation_flat_map _ P).
+  pose proof (permute_seq l []) as E. cbn [app length] in E. rewrite E. apply Permutation_refl.
+Qed.
+
+Lemma flush_both_agree_idx idx ds c :
+  wf_content c -> wf_dirty ds -> Permutation idx (seq 0 (length ds)) ->
+  fst (flush_both idx ds c) = snd (flush_both idx ds c).
+Proof. intros WF WD P. apply flush_both_agree; [exact WF|exact WD|apply permute_is_permutation, P]. Qed.
